@@ -253,12 +253,23 @@ def r2(ctx, rule: str = "C04-R2") -> None:
     p = am.params()
     ok = len(rets) == 1 and isinstance(rets[0].value, ast.IfExp) and norm(rets[0].value.test) == f"self.is_sequential({p[1]}, {p[2]})" and \
         norm(rets[0].value.body) == f"self.a_matrix_sequential({p[1]})" and norm(rets[0].value.orelse) == f"self.a_matrix_general({p[1]}, {p[2]})"
+    fam = lib.flow(am, repo)
+    if rets:
+        unmod = all(all(d.kind == "param" for d in fam.reaching(x, rets[0])) for x in (p[1], p[2]))
+        ctx.ob(rule, "a_matrix/arguments-unmodified", unmod, am, rets[0],
+               "the dispatcher hands on the compartments and the initial concentration it was given: re-normalising j here rescales the "
+               "A-matrix whenever j is deliberately not normalised (exclude_from_normalize, an initial concentration shared by several megacomplexes)",
+               construct="; ".join(lib.short(d.stmt, 70) for x in (p[1], p[2]) for d in fam.reaching(x, rets[0]) if d.kind != "param") or "parameters")
     ctx.ob(rule, "a_matrix/selected-by-guard", ok, am, rets[0] if rets else am.node,
            "the closed form is used iff is_sequential(compartments, initial_concentration), the general eigen path otherwise")
     rt = ctx.fn(KM, "KMatrix.rates")
     g = next((n for n in lib.nodes(rt, ast.If)), None)
     p = rt.params()
     ok = g is not None and norm(g.test) == f"self.is_sequential({p[1]}, {p[2]})"
+    frt = lib.flow(rt, repo)
+    if g is not None:
+        unmod = all(all(d.kind == "param" for d in frt.reaching(x, g)) for x in (p[1], p[2]))
+        ctx.ob(rule, "rates/arguments-unmodified", unmod, rt, g, "rates are computed for the compartments and initial concentration given")
     ctx.ob(rule, "rates/same-guard", ok, rt, g or rt.node, "the rates are ordered like the A-matrix: selected by the same guard with the same arguments")
 
 
